@@ -107,8 +107,25 @@ def default_cases(O, pid, n_quick=300, n_thorough=4000, cfg_fn=F.config_variants
     cases += F.snippet_cases(opts=opts)
     cases += F.generated_cases(O.seed, n, tag or pid.lower(), cfg_fn=cfg_fn, opts=opts, **genkw)
     cases += catalogue_cases(O.seed, n if O.tier == "quick" else 2 * n, tag or pid.lower(), cfg_fn=cfg_fn, opts=opts)
+    cases += wide_cases(opts)
     cases += finding_cases(pid, opts)
     return cases
+
+
+def wide_cases(opts=None):
+    """Blocks that need many temporaries (two-digit counters), used again by a later statement of the same block."""
+    out = []
+    for n in (6, 9, 11, 12, 15, 23):
+        head = " + ".join("o.m%d()" % i for i in range(n))
+        tail = " + ".join("o.n%d()" % i for i in range(n))
+        tpl = "".join("${o.t%d()}" % i for i in range(n))
+        args = ", ".join("o.a%d()" % i for i in range(n))
+        progs = ["function render(o) { const head = %s; const tail = %s; return head + tail; }" % (head, tail),
+                 "function render(o, s) { const a = `%s`; const b = s.concat(%s); { const c = %s; } return a + b; }" % (tpl, args, head),
+                 "function render(o, s) { let r = ''; r += %s; r += s.concat(%s); return r + `%s`; }" % (head, args, tpl)]
+        for j, code in enumerate(progs):
+            out.append({"id": "wide-%d-%d" % (n, j), "config": vlib.default_config(), "calls": [{"code": code, "file": "wide.js"}], "opts": dict(opts or {})})
+    return out
 
 
 def run(O, P, mod, pid):
